@@ -31,6 +31,11 @@ EXPLANATION = (
   " (FMT-color) the #rrggbb[aa] text the writer prints, evaluated on a grid of components including alpha below 10h, is consumed whole by the reader's pattern and gives the same components;"
   ' (FIN-decoration) TextDecoration.from_model, evaluated for all 27 combinations of its three components, writes exactly one token per non-None component and the `no...` form for False;'
   " (FMT-number) every number-to-text conversion of the attribute and style serialisers gives plain decimal notation on a grid from 1e-05 to 1234567 (no exponent, which the reader's patterns reject);"
+  ' (TRAV-rec) every function that walks the tree by calling itself on the children reaches that child loop on every path (the three walkers that prune by design are tabled with the rules that decide their pruning);'
+  ' (LINT-l) no tuple / list / set display of the anchored modules lists the same computed component twice and no dict display repeats a key (a key or fingerprint built that way cannot tell apart what the missing component would have);'
+  ' (STATE-share) no assignment stores a container field of one object (a field the package updates in place) into a field of another object without copying it, so an in-place update of one object never changes another;'
+  " (ITEM-source) an object built once per item of an inner loop is filled only with values that derive from that item or do not vary with the loops, never with a value of the enclosing container standing where the item's own belongs;"
+  " (NUL-arg) the result of a getter that returns None for a missing entry (get_style, get_initial_value, ...) is never passed straight into a function that dereferences that parameter without a None test, unless the key is drawn from the same container's own keys;"
 )
 RULE_TEXT = "per element kind, per style property, per Enum member, per special-value access, per time syntax sample"
 UNDECIDED = ["snapshot equality after re-reading", "numeric precision of written lengths (:g formatting)", "font-family quoting round trip", "times move by less than one unit and never change order"]
@@ -611,4 +616,6 @@ def run(ctx):
   check_color_format(ctx)
   check_text_decoration_tokens(ctx)
   check_number_notation(ctx)
+  common.check_walkers(ctx, ["ttconv.imsc.elements", "ttconv.imsc.writer"])
+  common.check_nullable_args(ctx, ["ttconv.imsc.writer", "ttconv.imsc.elements", "ttconv.imsc.style_properties", "ttconv.imsc.attributes"])
   common.check_history_independence(ctx, ["ttconv.imsc.writer", "ttconv.imsc.reader", "ttconv.imsc.elements", "ttconv.imsc.attributes", "ttconv.imsc.utils", "ttconv.imsc.style_properties", "ttconv.imsc.config", "ttconv.time_code", "ttconv.utils"])
